@@ -15,6 +15,8 @@ def new_interp(ctx, chooser=None, choice=None, summaries=None, **kw):
     d = SymDomain(choice=choice)
     it = Interp(ctx.program, d, chooser=chooser, summaries=summaries, **kw)
     d._interp = it
+    from qstatic.scenario import default_choice
+    it.default_chooser = default_choice
     return it, d
 
 
